@@ -66,3 +66,29 @@ def call(src, qual, args=(), kwargs=None, self_obj=None, inline=True):
 
 
 def pos(*ts): return [cmp('>', lift(t), 0) for t in ts]
+
+
+def no_abnormal(cx, name, paths, pre=(), **meta):
+    """the real-number model follows every feasible execution: each recorded abnormal exit (division by zero, log of a
+    non-positive number) must be infeasible under the precondition"""
+    n = 0
+    for pi, p in enumerate(paths):
+        for (pc, why) in p.ex.abnormal:
+            cx.ob("%s.defined.%d" % (name, n), list(pre) + list(pc), FALSE, kind='definedness', why=why, **meta); n += 1
+    return n
+
+
+def outcome_set(paths): return sorted({(p.outcome, p.value if p.outcome == 'raise' else None) for p in paths})
+
+
+def all_raise(cx, name, paths, classes=('ValueError',), **meta):
+    """exceptional postcondition: under the given precondition no path returns normally (path enumeration, solver-pruned)"""
+    ok = len(paths) >= 1 and all(p.outcome == 'raise' and p.value in classes for p in paths)
+    detail = "; ".join("%s %s" % (p.outcome, p.value if p.outcome == 'raise' else '') for p in paths)
+    return cx.ob(name, [], blit(ok), kind='paths', outcomes=detail, **meta)
+
+
+def none_raise(cx, name, paths, **meta):
+    ok = len(paths) >= 1 and all(p.outcome == 'return' for p in paths)
+    detail = "; ".join("%s %s" % (p.outcome, p.value if p.outcome == 'raise' else '') for p in paths)
+    return cx.ob(name, [], blit(ok), kind='paths', outcomes=detail, **meta)
